@@ -117,13 +117,13 @@ def replay_h_column_filter_in(a0, a1, vals, negate, nested):
 
 def h_column_filter_partition(a0: int, a1: int, p: int, op1: int, v1: int, pne: bool, vp: int, shape: int) -> bool:
     """
-    pre: 0 <= op1 < 7 and 0 <= shape <= 1
+    pre: 0 <= op1 < 7 and 0 <= shape <= 2
     post: __return__
     """
     # rows of one row group whose partition value is p; the group was not pruned.  Programs:
-    #   0: [[A, P]]  (AND with a partition clause)      1: [[A], [P]]  (OR with a partition clause)
+    #   0: [[A, P]]   2: [[P, A]]  (AND with a partition clause, either order)    1: [[A], [P]]  (OR)
     A, P = ("a", OPS[op1], v1), ("p", "!=" if pne else "==", vp)
-    filters = [[[A, P]], [[A], [P]]][shape]
+    filters = [[[A, P]], [[A], [P]], [[P, A]]][shape]
     # pruning keeps the group iff some AND group is not excluded by the partition value (no statistics here)
     kept = any(all(row_pred(c[1], p, c[2]) for c in grp if c[0] == "p") for grp in filters)
     if not kept:
@@ -134,17 +134,18 @@ def h_column_filter_partition(a0: int, a1: int, p: int, op1: int, v1: int, pne: 
     return all(bool(out[i]) == _expected(rows[i], filters, False) for i in range(2))
 
 
-def h_column_filter_partition_and(a0: int, a1: int, p: int, op1: int, v1: int, pne: bool, vp: int) -> bool:
+def h_column_filter_partition_and(a0: int, a1: int, p: int, op1: int, v1: int, pne: bool, vp: int,
+                                  pfirst: bool) -> bool:
     """
     pre: 0 <= op1 < 7
     post: __return__
     """
-    # the AND shape alone (outside known finding P2, which concerns OR groups)
-    return h_column_filter_partition(a0, a1, p, op1, v1, pne, vp, 0)
+    # the AND shapes alone, partition clause last or first (outside known finding P2, which concerns OR groups)
+    return h_column_filter_partition(a0, a1, p, op1, v1, pne, vp, 2 if pfirst else 0)
 
 
-def replay_h_column_filter_partition_and(a0, a1, p, op1, v1, pne, vp):
-    return replay_h_column_filter_partition(a0, a1, p, op1, v1, pne, vp, 0)
+def replay_h_column_filter_partition_and(a0, a1, p, op1, v1, pne, vp, pfirst):
+    return replay_h_column_filter_partition(a0, a1, p, op1, v1, pne, vp, 2 if pfirst else 0)
 
 
 def replay_h_column_filter_partition(a0, a1, p, op1, v1, pne, vp, shape):
@@ -152,7 +153,7 @@ def replay_h_column_filter_partition(a0, a1, p, op1, v1, pne, vp, shape):
     import pandas as pd
     import fastparquet
     A, P = ("a", OPS[op1], v1), ("p", "!=" if pne else "==", vp)
-    filters = [[[A, P]], [[A], [P]]][shape]
+    filters = [[[A, P]], [[A], [P]], [[P, A]]][shape]
     df = pd.DataFrame({"a": [a0, a1], "p": [p, p]})
     d = tempfile.mkdtemp(prefix="c13-")
     try:
